@@ -187,8 +187,16 @@ class BV(Bits):
 
     def identical(self, other: Self) -> bool:
         with suppress(BackendError):
-            return claripy.backends.vsa.convert(self).identical(claripy.backends.vsa.convert(other))
-        return super().identical(other)
+            mine = claripy.backends.vsa.convert(self)
+            theirs = claripy.backends.vsa.convert(other)
+            if not mine.identical(theirs):
+                return False
+            # equal abstract values only prove equal expressions when they pin down a single concrete value
+            # (x + 1 and x + 2 both abstract to TOP)
+            if getattr(mine, "cardinality", None) == 1:
+                return True
+        # otherwise compare the structure up to a consistent renaming of the variables
+        return self.canonicalize()[2] is other.canonicalize()[2]
 
 
 def BVS(  # pylint:disable=redefined-builtin
